@@ -74,7 +74,25 @@ def _halfpow(tf, x2, J):
     return x2 ** (J // 2) * (tf.sqrt(x2) if J % 2 else 1.0)
 
 
-def _mk(mset, spins, chains, reeval=False):
+def _with_second(sname, second):
+    """the structure `sname` plus a SECOND resonance R2_xy (own spin, own nominal mass and width) in the listed two-body sub-systems:
+    chain key '<xy>2'.  (Added after seeded change C04-rename_data_dict_shared_q0: several resonances of one sub-system share one
+    entry of the data dictionary; what is stored there for the first must not be read for the second.)"""
+    name = sname + "_2" + "".join("%s%d" % (k, j) for k, j in sorted(second.items()))
+    if name in M.STRUCTS:
+        return name
+    st = copy.deepcopy(M.STRUCTS[sname])
+    for ck, J in second.items():
+        r, a, b, spect = st["pairs"][ck]
+        r2 = r.replace("R_", "R2_")
+        st["res"][r2] = {"J": int(J), "P": (-1) ** int(J), "m0": st["res"][r]["m0"] * 0.93, "g0": 0.17}
+        st["chains"][ck + "2"] = [(st["chains"][ck][0][0], tuple(r2 if x == r else x for x in st["chains"][ck][0][1])), (r2, st["chains"][ck][1][1])]
+        st["pairs"][ck + "2"] = (r2, a, b, spect)
+    M.STRUCTS[name] = st
+    return name
+
+
+def _mk(mset, spins, chains, reeval=False, second=None):
     def g(ctx):
         tf, shim = ctx.tf, ctx.shim
         import numpy
@@ -82,6 +100,8 @@ def _mk(mset, spins, chains, reeval=False):
         if not hasattr(numpy, "Inf"):
             numpy.Inf = numpy.inf  # harness accommodation (DESIGN section 1): tf_pwa.fit_improve needs the NumPy-1 alias at import
         sname = M.spinless_struct(mset, spins)
+        if second:
+            sname = _with_second(sname, second)
         st = M.STRUCTS[sname]
         cfg = M.build_config(sname, chains=list(chains))
         core = ctx.mod("amp.core")
@@ -98,6 +118,9 @@ def _mk(mset, spins, chains, reeval=False):
         per = {}
         for ck in chains:
             r, a, b, spect = st["pairs"][ck]
+            if ck[:2] in per:  # second resonance of a sub-system: the SAME kinematic leaves
+                per[ck] = per[ck[:2]]
+                continue
             per[ck] = {"m": ctx.real("mR_" + ck, (1,), sample=lambda rng: [rng.uniform(1.6, 3.5)]),
                        "Q2": ctx.real("Q2_" + ck, (1,), sample=pos(0)), "P2": ctx.real("P2_" + ck, (1,), sample=pos(0)),
                        "beta": ctx.real("beta_" + ck, (1,), sample=lambda rng: [rng.uniform(0.1, 3.0)])}
@@ -274,6 +297,25 @@ for _J1 in range(5):
                   tiers=("quick", "thorough") if _quick else ("thorough",),
                   bound="all three chains interfering, spins (%d, %d, %d)%s" % (_J1, _J2, _J3, "; re-evaluated after set_params" if _quick else ""))(
                 _mk(_MSETS[0], (_J1, _J2, _J3), ("bc", "bd", "cd"), reeval=_quick))
+
+# several resonances in ONE two-body sub-system (they share the kinematic leaves and one entry of the data dictionary), each with its own
+# spin, nominal mass and width: every (J, J') for the first sub-system, a diagonal for the others, and one with a third chain interfering
+for _ck, _pos in (("bc", 0), ("bd", 1), ("cd", 2)):
+    for _J1 in range(5):
+        for _J2 in range(5):
+            if _ck != "bc" and (_J1 + _J2) % 3 != 1:
+                continue
+            _sp = [0, 0, 0]
+            _sp[_pos] = _J1
+            _quick = (_ck, _J1, _J2) in (("bc", 1, 1), ("bc", 0, 2), ("bc", 2, 1), ("bd", 1, 0), ("cd", 2, 2), ("bc", 3, 4))
+            group(["C04"], "amp.stage/same_subsystem/%s/J=%d-%d" % (_ck, _J1, _J2), _FUNCS, env="shim", kind="P", no_native=True, cost=3 + _J1 + _J2, assumes=_ASSUME,
+                  tiers=("quick", "thorough") if _quick else ("thorough",),
+                  bound="two resonances of spins %d and %d (own nominal mass, width, couplings) in the sub-system %s, interfering%s" % (
+                      _J1, _J2, _ck, "; re-evaluated after set_params" if _quick else ""))(
+                _mk(_MSETS[0], tuple(_sp), (_ck, _ck + "2"), reeval=_quick, second={_ck: _J2}))
+group(["C04"], "amp.stage/same_subsystem/bc+bc2+bd+bd2/J=1-2-2-0", _FUNCS, env="shim", kind="P", no_native=True, cost=9, assumes=_ASSUME,
+      bound="two resonances in each of two sub-systems, all four chains interfering")(
+    _mk(_MSETS[0], (1, 2, 0), ("bc", "bc2", "bd", "bd2"), second={"bc": 2, "bd": 0}))
 
 
 # ---------------------------------------------------------------------------------------------
